@@ -69,6 +69,7 @@ func GenProject(r *core.Rng, flavour string) Project {
 	// syntax errors in every module in a third of the error projects: many parser
 	// goroutines append diagnostics at the same time
 	syntaxEverywhere := flavour == "errors" && r.Chance(1, 3)
+	ghostDistinct := r.Chance(1, 2)
 	errMods := map[int]bool{}
 	if flavour == "errors" {
 		k := r.Range(1, n)
@@ -96,7 +97,12 @@ func GenProject(r *core.Rng, flavour string) Project {
 			fmt.Fprintf(&b, "import \"q/%s\";\n", name(cycleTo))
 		}
 		if ghostMods[i] {
-			b.WriteString("import \"q/ghost\";\n")
+			// the same missing module from several importers, or a different one each
+			if ghostDistinct {
+				fmt.Fprintf(&b, "import \"q/ghost%d\";\n", i)
+			} else {
+				b.WriteString("import \"q/ghost\";\n")
+			}
 		}
 		b.WriteString("\n")
 		ref := func(j int) string {
